@@ -201,14 +201,18 @@ def setAt {α} (l : List α) (i : Nat) (f : α → α) : List α :=
 
 /-- the write-backs of one `Basic_Player::step_event` into the track it reads from
 (`track_event->play_time = min(...)`, `track_event->param = stack.top().end_position`) -/
-def wbEvent (s : Player.PState) (e : SEvent) : SEvent :=
+def stampEvent (s : Player.PState) (e : SEvent) : SEvent :=
   let pt := s.acc.playTime + s.acc.onTime + s.acc.offTime
-  let e := if e.playTime > pt then { e with playTime := pt } else e
+  if e.playTime > pt then { e with playTime := pt } else e
+
+def brkEvent (s : Player.PState) (e : SEvent) : SEvent :=
   if e.ev.kind = .loopBreak then
     match Player.stackTop s.core.stack .loop with
     | .ok f => { e with ev := { e.ev with param := f.endPosition } }
     | .error _ => e
   else e
+
+def wbEvent (s : Player.PState) (e : SEvent) : SEvent := brkEvent s (stampEvent s e)
 
 def wbStep (s : Player.PState) (code : List SEvent) : List SEvent := setAt code s.core.position (wbEvent s)
 
